@@ -195,13 +195,15 @@ pub enum IOp {
     Hint,
 }
 
-fn run_de<I: DoubleEndedIterator<Item = u8>>(mut it: I, ops: &[IOp]) -> Vec<String> {
+// NOTE: the iterator is driven directly (no `.map(..)` adaptor, which would replace the type's own
+// nth / nth_back by the default advance-by-next implementations)
+fn run_de<I: DoubleEndedIterator>(mut it: I, conv: fn(I::Item) -> u8, ops: &[IOp]) -> Vec<String> {
     ops.iter()
         .map(|op| match *op {
-            IOp::Next => on(it.next()),
-            IOp::NextBack => on(it.next_back()),
-            IOp::Nth(n) => on(it.nth(n as usize)),
-            IOp::NthBack(n) => on(it.nth_back(n as usize)),
+            IOp::Next => on(it.next().map(conv)),
+            IOp::NextBack => on(it.next_back().map(conv)),
+            IOp::Nth(n) => on(it.nth(n as usize).map(conv)),
+            IOp::NthBack(n) => on(it.nth_back(n as usize).map(conv)),
             IOp::Hint => {
                 let (lo, hi) = it.size_hint();
                 format!("{lo}:{}", hi.map(|x| x as i64).unwrap_or(-1))
@@ -238,11 +240,11 @@ pub fn dec_ops(s: &str) -> Vec<IOp> {
 
 pub fn iter_line(out: &mut dyn Write, kind: &str, ops: &[IOp]) {
     let res = match kind {
-        "file" => run_de(File::all().map(|x| x as u8), ops),
-        "rank" => run_de(Rank::all().map(|x| x as u8), ops),
-        "piece" => run_de(Piece::all().map(|x| x as u8), ops),
-        "color" => run_de(Color::all().map(|x| x as u8), ops),
-        "side" => run_de(Side::all().map(|x| x as u8), ops),
+        "file" => run_de(File::all(), |x| x as u8, ops),
+        "rank" => run_de(Rank::all(), |x| x as u8, ops),
+        "piece" => run_de(Piece::all(), |x| x as u8, ops),
+        "color" => run_de(Color::all(), |x| x as u8, ops),
+        "side" => run_de(Side::all(), |x| x as u8, ops),
         "pos" => {
             // AllPosIter is forward-only: next / size_hint
             let mut it = Pos::all();
